@@ -425,7 +425,7 @@ mod verif_inflate_core {
             if len != (!nlen & 0xFFFF) {
                 assert!(matches!(a, Action::Jump(BadRawLength)), "OBL:arms.stored_length_check_failure_is_rejected [C04]");
             } else if len == 0 {
-                assert!(matches!(a, Action::Jump(BlockDone)), "OBL:arms.empty_stored_block_is_done [C03 C12]");
+                assert!(matches!(a, Action::Jump(BlockDone)), "OBL:arms.empty_stored_block_is_done [C03 C12 C19]");
             } else {
                 assert!(l1.counter == len, "OBL:arms.stored_length_taken_from_header [C03]");
                 assert!(if l.num_bits != 0 { matches!(a, Action::Jump(RawReadFirstByte)) } else { matches!(a, Action::Jump(RawMemcpy1)) }, "OBL:arms.stored_bytes_in_bit_buffer_are_emitted_first [C03]");
@@ -1068,6 +1068,62 @@ mod verif_inflate_core {
         }
         kani::cover!(st == TINFLStatus::Failed, "COV:fast.failed");
         kani::cover!(AM_CALLS.load(::core::sync::atomic::Ordering::Relaxed) >= 1, "COV:fast.match");
+    }
+
+    // ------------------------------------------------------------------
+    // K-boundary (cargo feature block-boundary): the boundary record and the stop-at-block-boundary exit
+    // ------------------------------------------------------------------
+    #[cfg(feature = "block-boundary")]
+    #[kani::proof]
+    fn k_block_boundary_record() {
+        let st = if kani::any() { ReadBlockHeader } else { DecodeLitlen };
+        let r = any_decompressor(st);
+        kani::assume(r.num_bits < 8 && r.bit_buf >> r.num_bits == 0); // what the BlockBoundary exit leaves (k_block_boundary_exit)
+        let b = r.block_boundary_state();
+        if st != ReadBlockHeader { assert!(b.is_none(), "OBL:boundary.record_only_at_a_block_boundary [C19]"); return; }
+        let b = b.unwrap();
+        assert!(b.num_bits as u32 == r.num_bits && b.bit_buf as BitBuffer == r.bit_buf && b.z_header0 == r.z_header0 && b.z_header1 == r.z_header1 && b.check_adler32 == r.check_adler32,
+            "OBL:boundary.record_holds_pending_bits_header_and_running_checksum [C19]");
+        let r2 = DecompressorOxide::from_block_boundary_state(&b);
+        assert!(r2.state == ReadBlockHeader && r2.num_bits == r.num_bits && r2.bit_buf == r.bit_buf && r2.z_header0 == r.z_header0 && r2.z_header1 == r.z_header1
+            && r2.check_adler32 == r.check_adler32, "OBL:boundary.decoder_rebuilt_from_record_resumes_with_the_same_live_registers [C19]");
+        // every other register is dead at ReadBlockHeader (re-initialised before use by the block-header arms): rebuilt as default
+        assert!(r2.finish == 0 && r2.block_type == 0 && r2.dist == 0 && r2.counter == 0 && r2.num_extra == 0 && r2.z_adler32 == 1, "OBL:boundary.other_registers_default [C19]");
+    }
+
+    #[cfg(feature = "block-boundary")]
+    #[kani::proof]
+    #[kani::unwind(10)]
+    #[kani::stub(update_adler32, model_adler)]
+    fn k_block_boundary_exit() {
+        // concrete flag words (a symbolic one makes symbolic execution enter the whole automaton through the
+        // not-stopping branch): ring / flat, raw / zlib, checksum on / ignored
+        block_boundary_exit_body(TINFL_FLAG_STOP_ON_BLOCK_BOUNDARY);
+        block_boundary_exit_body(TINFL_FLAG_STOP_ON_BLOCK_BOUNDARY | TINFL_FLAG_USING_NON_WRAPPING_OUTPUT_BUF | TINFL_FLAG_PARSE_ZLIB_HEADER | TINFL_FLAG_HAS_MORE_INPUT);
+        block_boundary_exit_body(TINFL_FLAG_STOP_ON_BLOCK_BOUNDARY | TINFL_FLAG_PARSE_ZLIB_HEADER | TINFL_FLAG_IGNORE_ADLER32);
+    }
+    #[cfg(feature = "block-boundary")]
+    fn block_boundary_exit_body(flags: u32) {
+        // the real decompress_with_limit entered in state BlockDone after a non-final block
+        let mut r = any_decompressor(BlockDone);
+        r.finish = 0; // concrete: a symbolic value makes symbolic execution walk the end-of-stream path as well
+        kani::assume(r.num_bits <= 56 && r.bit_buf >> r.num_bits == 0);
+        let nb0 = r.num_bits;
+        let inb: [u8; 4] = kani::any();
+        let inl: usize = kani::any();
+        kani::assume(inl <= 4);
+        let mut out: [u8; OUT_CAP] = kani::any();
+        let outl: usize = kani::any();
+        kani::assume(outl <= OUT_CAP);
+        let out_pos: usize = kani::any();
+        let flat = flags & TINFL_FLAG_USING_NON_WRAPPING_OUTPUT_BUF != 0;
+        kani::assume((flat || matches!(outl, 0 | 1 | 2 | 4 | 8 | 16)) && out_pos <= outl);
+        let (st, c, w) = decompress_with_limit(&mut r, &inb[..inl], &mut out[..outl], out_pos, usize::MAX, flags);
+        assert!(st == TINFLStatus::BlockBoundary, "OBL:boundary.stop_reported_after_a_non_final_block [C19]");
+        assert!(r.state == ReadBlockHeader && c == 0 && w == 0, "OBL:boundary.resumes_at_next_block_header_nothing_consumed [C19]");
+        // whole unread bytes can only be handed back if they were read during this call (none were): the record's
+        // precondition num_bits < 8 therefore needs the history invariant of DESIGN.md §4 C06 (assumed)
+        assert!(r.num_bits == nb0, "OBL:boundary.pending_bits_kept [C19]");
     }
 
     //@PLAYBACK@
